@@ -19,7 +19,7 @@ downward flag, every one fed by *writes_to_parent on the upward flag (the peer-e
 exempt under a who-may-write obligation: total_reads_to_peer is never assigned in the symbolic
 analysis); read increments carry read_scale = 1/values_per_action; (P4) never outermost: template
 generation intersects a Toll's keep sets with Above, and run_model raises when a Toll is the first
-holder of a fusable tensor. NOT decided: the numeric access counts.
+holder of a fusable tensor; (P5) transparency: what a holder reports to its parent never depends on the direction flags. NOT decided: the numeric access counts.
 """
 
 SY = "accelforge/model/_looptree/reuse/symbolic/_symbolic.py"
@@ -231,11 +231,38 @@ def _p4(ctx):
     ctx.floor(R, 6)
 
 
+def _p5(ctx):
+    R = "C31-P5"
+    ctx.doc(R, "pass-through transparency: the traffic a holder reports to its parent (*_to_parent counters) never depends on the direction / count_writes flags, "
+               "which only gate the holder's own action charges")
+    st = ctx.func(SY, "analyze_storage", R)
+    cfg = ctx.cfg(st)
+    sites = [c for c in st.calls("inherit_add")]
+    for s in st.stmts():
+        for t, v, _ in assigned_targets(s):
+            if isinstance(t, ast.Attribute) and t.attr.endswith("_to_parent") and norm(t.value) == "stats":
+                sites.append(s)
+    ctx.require(len(sites) >= 6, R, f"upward-propagation sites found: {len(sites)}")
+    FLAGS = ("count_upward_movement", "count_downward_movement", "count_writes")
+    for c in sites:
+        n = cfg.stmt_node_containing(c) if not isinstance(c, ast.stmt) else cfg.node_of(c)
+        conds = [norm(h.ast.test) for h, lab in cfg.control_conditions(n) if h.kind == "if"]
+        dep = [t for t in conds if any(f in t for f in FLAGS)]
+        ctx.check(not dep, R, st, c, f"the traffic reported to the parent depends on `{dep[0] if dep else ''}`: a Toll configured for one direction swallows the traffic of the other direction, so holders "
+                                     f"above it (another Toll, or the backing memory) see and charge nothing", "reported regardless of the direction flags")
+    # the helper itself adds child-or-default to the running counter, unconditionally on flags
+    ia = [f for f in ctx.module(SY).funcs.values() if f.parent is st and f.name == "inherit_add"]
+    ctx.require(len(ia) == 1, R, "inherit_add helper")
+    txt = norm(ia[0].node)
+    ctx.check(not any(f in txt for f in FLAGS), R, ia[0], ia[0].node, "inherit_add consults a direction flag", "inherit_add is flag-independent")
+
+
 def check(ctx):
     _p1(ctx)
     _p2(ctx)
     _p3(ctx)
     _p4(ctx)
+    _p5(ctx)
 
 
 VARIANTS = [
@@ -256,6 +283,7 @@ VARIANTS = [
     {"kind": "F", "name": "latency-writes-for-toll", "rule": "C31-P2", "edits": [(LAT, "            if not isinstance(name2component[component], arch.Toll):\n                actions[\"write\"] += (", "            if True:\n                actions[\"write\"] += (")]},
     {"kind": "F", "name": "size-lookup-before-skip", "rule": "C31-P1", "edits": [(RM, "        occupancy = stats.max_occupancy\n\n        if occupancy == 0:\n            continue\n", "        occupancy = stats.max_occupancy\n        _sz = memory_to_size[buffet.level]\n\n        if occupancy == 0:\n            continue\n")]},
     {"kind": "F", "name": "peer-reads-assigned", "rule": "C31-P3", "edits": [(SY, "        stats.max_occupancy /= n_active_physical_units\n", "        stats.max_occupancy /= n_active_physical_units\n        stats.total_reads_to_peer = fills\n")]},
+    {"kind": "F", "name": "writeback-gated-by-direction", "rule": "C31-P5", "edits": [(SY, "            if (\n                tensor in info.workload.einsums[einsum_name].output_tensor_names\n                or not below_backing\n            ):", "            if count_upward_movement[tensor] and (\n                tensor in info.workload.einsums[einsum_name].output_tensor_names\n                or not below_backing\n            ):")]},
     {"kind": "S", "name": "commuted-write-scale", "edits": [(SY, "                stats.total_write_actions += child.total_writes_to_parent * write_scale", "                stats.total_write_actions += write_scale * child.total_writes_to_parent")]},
     {"kind": "S", "name": "flags-in-a-loop", "edits": [(SY, 'count_up = {TensorName(t): direction[t] != "down" for t in node.tensors}', 'count_up = {TensorName(tn): direction[tn] != "down" for tn in node.tensors}')]},
 ]
